@@ -303,9 +303,9 @@ fn c14(args: &Args) -> ! {
         total_exec += stats.executions;
         if stats.capped {
             rep.exhaustive = false;
-            rep.notes.push(format!("configuration initial={} max={} conns={}: exploration capped after {} executions ({} abstract states) - not exhaustive for this configuration", i, m, n, stats.executions, stats.states.len()));
+            rep.notes.push(format!("configuration initial={} max={} conns={}{}: exploration capped after {} executions ({} abstract states) - not exhaustive for this configuration", i, m, n, if crash.is_some() { " (handler of connection 0 panics)" } else { "" }, stats.executions, stats.states.len()));
         } else {
-            rep.notes.push(format!("configuration initial={} max={} conns={}: {} complete ({} executions, {} abstract states, {} transitions)", i, m, n, if thorough { "state-pruned enumeration" } else { "deviation bound 2" }, stats.executions, stats.states.len(), stats.transitions));
+            rep.notes.push(format!("configuration initial={} max={} conns={}{}: {} complete ({} executions, {} abstract states, {} transitions)", i, m, n, if crash.is_some() { " (handler of connection 0 panics)" } else { "" }, if thorough { "state-pruned enumeration" } else { "deviation bound 2" }, stats.executions, stats.states.len(), stats.transitions));
         }
     }
     let _ = (total_states, total_trans, total_exec);
